@@ -82,6 +82,7 @@ class World:
 
     def interp(self):
         cfg = {"consts": self.consts, "types": self.types, "mem": self.mem, "type_files": self.type_files, "needs_drop": False}
+        cfg.update(getattr(self, "cfg_extra", {}))
         it = Interp(self.index, cfg)
         it.redirect = dict(getattr(self, "redirect", {}))
         return it
@@ -1671,40 +1672,65 @@ def multi_channel_world(ctx, chan, N, MS, nlisteners):
     # the set of listeners does not change during these queries: the live-stream list is a constant array (reads are not visible operations)
     w.decl("ch", sm + (sf["used_streams"], "*"), "frozen", None, value=[BV(32, j if j < nlisteners else 0xFFFFFFFF) for j in range(MS)])
     w.decl("ch", sm + (sf["used_streams_count"],), "atomic", z3.BitVecSort(32), BV(32, nlisteners))
+    w.cfg_extra = {"sleep_is_unreachable": True}      # sequences are shorter than the buffer: the sleep-and-retry of a full listener queue must not be reached
     return w, Ptr("ch"), cfile, ring
+
+
+def ring_content(w, b, root, base, ring, N, S, maxlen):
+    """(list of (present, value) for the first `maxlen` pending entries of a ring in the FINAL state, quiescence formula)"""
+    fi = {nm: i for i, nm in enumerate(w.fields(ring))}
+    mv = b.memv[S]
+    head = mv[(root, base + (fi["head"],))]; tail = mv[(root, base + (fi["tail"],))]
+    bufkey = (root, base + (fi["buffer"], "*"))
+    cells = mv[bufkey]
+    quiet = z3.BoolVal(True)
+    if ring == "AtomicMove":
+        quiet = z3.And(mv[(root, base + (fi["dequeuer_head"],))] == head, mv[(root, base + (fi["enqueuer_tail"],))] == tail)
+    else:
+        quiet = z3.Not(mv[(root, base + (fi["concurrency_guard"],))])
+    ln = tail - head
+    out = []
+    for k in range(maxlen):
+        idx = z3.URem(head + k, BV(head.size(), N))
+        val = cells[-1]
+        for j in reversed(range(len(cells) - 1)): val = z3.If(idx == j, cells[j], val)
+        out.append((z3.UGT(ln, BV(ln.size(), k)), val))
+    return out, z3.And(quiet, z3.ULE(ln, BV(ln.size(), maxlen)))
 
 
 def multi_query(ctx, name, chan, N, MS, nlisteners, producers, consumers, timeout_s, slack=2):
     """producers: per producer thread the number of send() calls; consumers: per listener the number of consume() calls made
-    CONCURRENTLY by that listener's thread; afterwards every listener drains its queue (threads that run after all others).
-    Oracle per listener: the values it received (concurrent + drain, in order) are exactly the sent ones, each once, and the events
-    of one producer arrive in that producer's send order."""
+    CONCURRENTLY by that listener's thread. What a listener has not consumed when all threads are done is read from the FINAL state
+    of its queue (entries head..tail of its ring, which must be quiescent) -- that is what a later drain would yield.
+    Oracle per listener: concurrent yields followed by the queue content are exactly the sent values, each once, the events of one
+    producer in that producer's send order."""
     w, ch, cfile, ring = multi_channel_world(ctx, chan, N, MS, nlisteners)
     it = w.interp()
     f_send = ctx.index.method("send", cfile); f_consume = ctx.index.method("consume", cfile)
+    cf = {nm: i for i, nm in enumerate(layout.struct_fields(cfile, MULTI_FILES[chan][1]))}
     graphs = []; sent = []
     for t, cnt in enumerate(producers):
         vs = [w.sym("v%d_%d" % (t, j)) for j in range(cnt)]; sent.append(vs)
         graphs.append(build_thread(it, t, [(f_send, [ch, v], "send") for v in vs], w.mem))
     P = len(producers)
+    cthreads = {}
     for i in range(nlisteners):
-        graphs.append(build_thread(it, P + i, [(f_consume, [ch, BV(32, i)], "consume")] * max(1, consumers[i]), w.mem))
+        if consumers[i] > 0:
+            cthreads[i] = len(graphs)
+            graphs.append(build_thread(it, len(graphs), [(f_consume, [ch, BV(32, i)], "consume")] * consumers[i], w.mem))
     total = sum(producers)
-    after = {}
-    for i in range(nlisteners):
-        t = P + nlisteners + i
-        graphs.append(build_thread(it, t, [(f_consume, [ch, BV(32, i)], "drain")] * total, w.mem)); after[t] = True
     S = sum(g.step_budget() for g in graphs) + slack
-    b = BMC(graphs, w.mem, S, {"after_all": after})
+    b = BMC(graphs, w.mem, S, {})
     S = b.S
     allv = [v for vs in sent for v in vs]
     cons = [allv[i] != allv[j2] for i in range(len(allv)) for j2 in range(i + 1, len(allv))]
     for v in allv: cons.append(z3.And(z3.UGE(v, BV(32, 0x1000)), z3.ULT(v, BV(32, POISON))))
     good = []
     for i in range(nlisteners):
-        rc = b.results(P + i, lambda j, v: ex_option_u32(v)) if consumers[i] > 0 else []
-        rd = b.results(P + nlisteners + i, lambda j, v: ex_option_u32(v))
-        R = [(r["some"], r["val"]) for r in (rc + rd)]
+        rc = b.results(cthreads[i], lambda j, v: ex_option_u32(v)) if i in cthreads else []
+        pend, quiet = ring_content(w, b, "ch", (cf["channels"], i), ring, N, S, total)
+        good.append(quiet)
+        R = [(r["some"], r["val"]) for r in rc] + pend
         for (some, val) in R: good.append(z3.Implies(some, z3.Or([val == v for v in allv])))                      # nothing unsent
         for v in allv: good.append(z3.Sum([z3.If(z3.And(some, val == v), BV(8, 1), BV(8, 0)) for some, val in R]) == 1)  # exactly once
         for vs in sent:                                                                                         # producer order
@@ -1712,9 +1738,9 @@ def multi_query(ctx, name, chan, N, MS, nlisteners, producers, consumers, timeou
                 good.append(z3.Or([z3.And(R[j][0], R[j][1] == vs[x], R[k2][0], R[k2][1] == vs[x + 1]) for j in range(len(R)) for k2 in range(j + 1, len(R))]))
     res_send = [b.results(t, lambda j, v: {"ok": v.discr == 0}) for t in range(P)]
     accepted = z3.And([r["ok"] for rs in res_send for r in rs])
-    meta = {"threads": ["%d: %d x send" % (t, c) for t, c in enumerate(producers)] + ["%d: listener %d: %d x consume (concurrent)" % (P + i, i, consumers[i]) for i in range(nlisteners)]
-                       + ["listener %d drains its queue (%d x consume, after all)" % (i, total) for i in range(nlisteners)],
-            "oracle": "every listener receives every sent event exactly once, nothing unsent, each producer's events in its send order; every send reports success; no panic / invalid access",
+    meta = {"threads": ["%d: %d x send" % (t, c) for t, c in enumerate(producers)] + ["%d: listener %d: %d x consume (concurrent)" % (cthreads[i], i, consumers[i]) for i in cthreads]
+                       + ["listeners' unconsumed events are read from the final state of their queues"],
+            "oracle": "every listener receives (or still has queued) every sent event exactly once, nothing unsent, each producer's events in its send order; every send reports success; queues quiescent at the end; no panic / invalid access",
             "bounds": "%s<u32,%d,%d>, %d listener(s), origin any u32, steps<=%d, payloads distinct symbolic u32; std::sync::Arc carried as its content" % (chan, N, MS, nlisteners, S)}
     violation = cons + [z3.Or(z3.And(b.all_done(), z3.Not(z3.And(good + [accepted]))), b.any_panic(), b.err[S])]
     witness = cons + [b.all_done()]
@@ -1727,15 +1753,17 @@ def multi_query(ctx, name, chan, N, MS, nlisteners, producers, consumers, timeou
         inp = {nm: model.eval(v, model_completion=True).as_long() for nm, v in w.inputs.items()}
         rec["inputs"] = inp
         progs = [["send:%d" % inp["v%d_%d" % (t, j)] for j in range(c)] for t, c in enumerate(producers)]
-        progs += [["recv:%d" % i] * max(1, consumers[i]) for i in range(nlisteners)]
-        afterp = ["drain:%d" % i for i in range(nlisteners) for _ in range(total)]
-        segs = replay.segments_from_trace(rec["trace"], skip_threads=tuple(range(P + nlisteners, P + 2 * nlisteners)))
+        progs += [["recv:%d" % i] * consumers[i] for i in range(nlisteners) if consumers[i] > 0]
+        afterp = ["drain:%d" % i for i in range(nlisteners) for _ in range(total + 1)]
+        segs = replay.segments_from_trace(rec["trace"])
         sent_vals = [[inp["v%d_%d" % (t, j)] for j in range(c)] for t, c in enumerate(producers)]
+        nthreads = len(progs)
         def symptom(h):
             if h["panics"]: return "panic: " + h["panics"][0]
             if h["stuck"] or h["timeout"]: return None
             for i in range(nlisteners):
-                got = [int(e["res"][1]) for e in sorted(h["events"], key=lambda e: (e["thread"] >= P + nlisteners, e["thread"], e["call"])) if e["op"] in ("recv", "drain") and e["arg"] == i and e["res"][:1] == ["some"]]
+                evs = sorted([e for e in h["events"] if e["op"] in ("recv", "drain") and e["arg"] == i], key=lambda e: (e["thread"] >= nthreads, e["call"]))
+                got = [int(e["res"][1]) for e in evs if e["res"][:1] == ["some"]]
                 flat = [v for vs in sent_vals for v in vs]
                 for v in got:
                     if v not in flat: return "listener %d yielded %d which was never sent" % (i, v)
@@ -1756,11 +1784,13 @@ def multi_query(ctx, name, chan, N, MS, nlisteners, producers, consumers, timeou
 def _c03_registry(add, tier, TO):
     def q(name, qtier, chan, N, MS, nl, producers, consumers, slack=2):
         add("C03", name, qtier, lambda ctx: multi_query(ctx, name, chan, N, MS, nl, producers, consumers, TO, slack))
-    q("c03_arc_atomic_1p2_2l", "quick", "multi_arc_atomic", 4, 2, 2, [2], [1, 0])
-    q("c03_arc_atomic_2p_1l", "quick", "multi_arc_atomic", 4, 2, 1, [1, 1], [1])
-    q("c03_arc_full_sync_1p2_2l", "quick", "multi_arc_full_sync", 4, 2, 2, [2], [1, 0])
-    q("c03_arc_atomic_2p_2l", "thorough", "multi_arc_atomic", 4, 2, 2, [1, 1], [1, 1])
-    q("c03_arc_full_sync_2p_2l", "thorough", "multi_arc_full_sync", 4, 2, 2, [1, 1], [1, 0])
+    q("c03_arc_atomic_2p_1l", "quick", "multi_arc_atomic", 4, 2, 1, [1, 1], [0])
+    q("c03_arc_atomic_1p_2l_c", "quick", "multi_arc_atomic", 4, 2, 2, [1], [1, 0])
+    q("c03_arc_full_sync_2p_1l", "quick", "multi_arc_full_sync", 4, 2, 1, [1, 1], [0])
+    q("c03_arc_atomic_1p2_2l", "thorough", "multi_arc_atomic", 4, 2, 2, [2], [1, 0])
+    q("c03_arc_atomic_2p_1l_c", "thorough", "multi_arc_atomic", 4, 2, 1, [1, 1], [1])
+    q("c03_arc_atomic_2p_2l", "thorough", "multi_arc_atomic", 4, 2, 2, [1, 1], [1, 0])
+    q("c03_arc_full_sync_1p2_2l", "thorough", "multi_arc_full_sync", 4, 2, 2, [2], [1, 0])
     q("c03_arc_atomic_2p2_1l", "thorough", "multi_arc_atomic", 4, 2, 1, [2, 1], [1])
 
 
